@@ -248,7 +248,7 @@ def check_identifiers(case: dict[str, Any]) -> list[tuple[str, str]]:
             elif rep[0] == 0x7F and rep[2] not in (0x11, 0x7F, 0x31, 0x12):
                 neg_abn += 1
         if key in skip and sk is not None:
-            for i in sk:
+            for i in (x for x in sk if case["start"] <= x <= end):
                 for sf in subfns:
                     if any(s_ == sess and p == pdu(i, sf) for s_, p, _ in r["wire"]):
                         out.append(("C10/identifiers/skipped-identifier-probed", f"{ctx}: {pdu(i, sf).hex()} probed in session {sess:#x}"))
